@@ -820,6 +820,11 @@ where
             crate::verif::sp("sync.read_op");
             match ch.try_recv() {
                 Ok(Hit(hash, entry, timestamp)) => {
+                    #[cfg(mini_moka_verif)]
+                    crate::verif::probe(
+                        "apply.hit",
+                        &**entry.entry_info() as *const EntryInfo<K> as u64,
+                    );
                     freq.increment(hash);
                     // The entry may have been updated (or read) at a later time than
                     // this read was recorded. Never move the last accessed time back.
@@ -874,6 +879,11 @@ where
         freq: &FrequencySketch,
         counters: &mut EvictionCounters,
     ) {
+        #[cfg(mini_moka_verif)]
+        crate::verif::probe(
+            "apply.upsert",
+            &**entry.entry_info() as *const EntryInfo<K> as u64,
+        );
         // This write op is outdated if the map no longer holds the incarnation of the
         // entry it was created for: the key has been invalidated, evicted or rejected
         // (and possibly inserted again) since it was queued. Acting on it would touch
@@ -1182,6 +1192,8 @@ where
                     skipped_nodes.push(victim);
                     #[cfg(mini_moka_verif)]
                     crate::verif::probe("admit.victim_skipped", 0);
+                    #[cfg(mini_moka_verif)]
+                    crate::verif::probe("rotate", vic_elem.entry_info() as *const EntryInfo<K> as u64);
 
                     retries += 1;
                     if retries > MAX_CONSECUTIVE_RETRIES {
@@ -1398,6 +1410,8 @@ where
                 // The key exists and the entry has been updated.
                 #[cfg(mini_moka_verif)]
                 crate::verif::probe("evict.skip_dirty", 0);
+                #[cfg(mini_moka_verif)]
+                crate::verif::probe("rotate", info as u64);
                 Deques::move_to_back_ao_in_deque(deq_name, deq, &entry);
                 Deques::move_to_back_wo_in_deque(write_order_deq, &entry);
                 true
